@@ -59,7 +59,17 @@ pub struct Failure {
 
 impl Failure {
     pub fn new(signature: impl Into<String>, detail: impl Into<String>) -> Self {
-        Failure { signature: signature.into(), detail: detail.into() }
+        // inputs go up to 256 KiB; the case itself is saved next to the failure, so the prose is capped
+        let mut detail: String = detail.into();
+        if detail.len() > 6000 {
+            let mut cut = 6000;
+            while !detail.is_char_boundary(cut) {
+                cut -= 1;
+            }
+            detail.truncate(cut);
+            detail.push_str("… [truncated]");
+        }
+        Failure { signature: signature.into(), detail }
     }
 }
 
@@ -775,7 +785,49 @@ pub fn run_check(check: &Check, tier: Tier, seed: u64) -> i32 {
 
     let mut outcomes = Vec::new();
     let mut violation: Option<(String, Value, Failure)> = None;
+    // the regression corpus first: saved (shrunk) failing cases of earlier defects and of the seeded
+    // changes of the sensitivity runs, re-run through the oracle of the leg that found them
+    {
+        let t = Instant::now();
+        let mut stats = Stats::default();
+        let mut failure = None;
+        let mut planned = 0u64;
+        for (name, leg_name, case) in regress_cases(check.property) {
+            planned += 1;
+            let leg = match check.legs.iter().find(|l| l.name() == leg_name) {
+                Some(l) => l,
+                None => {
+                    eprintln!("regression case {name} names leg {leg_name:?}, which check {} does not have: skipped", check.property);
+                    continue;
+                }
+            };
+            match leg.replay(&case) {
+                Err(e) => eprintln!("regression case {name}: {e}: skipped"),
+                Ok(v) => {
+                    stats.evaluations += 1;
+                    stats.label(&format!("leg:{leg_name}"));
+                    if let Err(f) = triage(&env, &mut stats, v) {
+                        failure = Some((case, f, leg_name));
+                        break;
+                    }
+                }
+            }
+        }
+        if planned > 0 {
+            eprintln!("[{}] leg {:<28} {:>10} cases  (saved regression inputs)  {:6.1}s{}", check.property, "regress-corpus", stats.evaluations, t.elapsed().as_secs_f64(), if failure.is_some() { "  FAILED" } else { "" });
+            let mut o = LegOutcome { name: "regress-corpus".into(), kind: "fixed list (saved failing inputs of earlier defects and seeded changes)", exhaustive: false, planned, stats, failure: None, wall_s: t.elapsed().as_secs_f64() };
+            if let Some((case, f, leg_name)) = failure {
+                // the replay file must name the real leg so that --replay finds the oracle
+                violation = Some((leg_name, case.clone(), f.clone()));
+                o.failure = Some((case, f));
+            }
+            outcomes.push(o);
+        }
+    }
     for (i, leg) in check.legs.iter().enumerate() {
+        if violation.is_some() {
+            break;
+        }
         *watch.leg.lock().unwrap() = leg.name().to_string();
         let o = leg.run(&env, i as u64);
         eprintln!(
@@ -1018,3 +1070,27 @@ pub fn merge_fuzz_evidence(property: &str, stats_path: &str) -> i32 {
     }
 }
 
+
+/// (file name, leg, case) of every saved regression input of a property: corpus/regress/<id>-*.json
+pub fn regress_cases(property: &str) -> Vec<(String, String, Value)> {
+    let dir = format!("{}/corpus/regress", verif_root());
+    let mut names: Vec<std::path::PathBuf> = match std::fs::read_dir(&dir) {
+        Ok(r) => r.filter_map(|e| e.ok()).map(|e| e.path()).collect(),
+        Err(_) => return Vec::new(),
+    };
+    names.sort();
+    let mut out = Vec::new();
+    for p in names {
+        let name = p.file_name().and_then(|n| n.to_str()).unwrap_or("").to_string();
+        if !name.starts_with(&format!("{property}-")) || !name.ends_with(".json") {
+            continue;
+        }
+        let v: Value = match std::fs::read_to_string(&p).ok().and_then(|t| serde_json::from_str(&t).ok()) {
+            Some(v) => v,
+            None => continue,
+        };
+        let leg = v.get("leg").and_then(|l| l.as_str()).unwrap_or("").to_string();
+        out.push((name, leg, v.get("case").cloned().unwrap_or(Value::Null)));
+    }
+    out
+}
